@@ -1004,6 +1004,14 @@ func (fc *FuncCtx) rangeInit(fr *Frame, st *State, x *ssa.Range) {
 		fc.p.registerHeap(h+"#n", SInt)
 		st.setH(h+"#n", IntLit(0))
 		fr.regs[x] = Val{T: xv.T, Tup: nil, LV: &LVal{Kind: -1, Typ: u, Heap: h}}
+		if fc.p.iterSumHeaps(x) && fc.p.tableOfRef(xv.T) == nil {
+			// ghost sum of the values of the visited keys (int-valued maps): the rows of the map as at the
+			// start of the iteration are recorded, the sum runs over them
+			d, vv, _ := fc.p.mapHeaps(u)
+			st.setH(h+"#d0", Select(st.H(fc.p, d), xv.T))
+			st.setH(h+"#v0", Select(st.H(fc.p, vv), xv.T))
+			st.setH(h+"#sum", IntLit(0))
+		}
 	case *types.Basic:
 		fr.regs[x] = Val{T: xv.T, LV: &LVal{Kind: -2, Typ: u}}
 	default:
@@ -1042,6 +1050,28 @@ func (fc *FuncCtx) chanInv(fr *Frame, st *State, elT types.Type, v Val, prove bo
 			st.assume(t)
 		}
 	}
+}
+
+// iterSumHeaps registers the ghost heaps of the visited-sum of a map iteration (maps with integer
+// values only): <iter>#sum (Int), <iter>#d0 / <iter>#v0 (domain and value rows at the start).
+func (p *Program) iterSumHeaps(x *ssa.Range) bool {
+	mt, ok := x.X.Type().Underlying().(*types.Map)
+	if !ok || sortOf(mt.Elem()) != SInt || sortOf(mt.Key()) == nil {
+		return false
+	}
+	h := iterHeapName(x)
+	ks := sortOf(mt.Key())
+	p.registerHeap(h+"#sum", SInt)
+	p.registerHeap(h+"#d0", ArraySort(ks, SBool))
+	p.registerHeap(h+"#v0", ArraySort(ks, SInt))
+	return true
+}
+
+// MapSum: the sum of the values of an integer-valued map given by its domain and value rows
+// (uninterpreted; axioms: empty domain, update of one key -- see extraDecls)
+func MapSum(dom, val *Term) *Term {
+	ks, _, _ := dom.Sort.arrayParts()
+	return mk("msum."+ks.Name, SInt, dom, val)
 }
 
 func iterHeapName(x *ssa.Range) string {
@@ -1108,6 +1138,15 @@ func (fc *FuncCtx) rangeNext(fr *Frame, st *State, x *ssa.Next) {
 			st.assume(Le(IntLit(0), cnt))
 			st.assume(Implies(And(Neq(it.T, IntLit(0)), sub), And(Implies(ok, Lt(cnt, ln)), Implies(Not(ok), Eq(cnt, ln)))))
 			st.setH(it.LV.Heap+"#n", Ite(ok, Add(cnt, IntLit(1)), cnt))
+		}
+		if _, has := st.heap[it.LV.Heap+"#sum"]; has && fc.p.tableOfRef(it.T) == nil {
+			// visited-sum: each visited key of the initial domain adds its initial value; once the
+			// iteration is exhausted over an unchanged domain every key has been visited exactly once,
+			// so the sum is the sum of the map (as at the start of the iteration)
+			d0, v0 := st.H(fc.p, it.LV.Heap+"#d0"), st.H(fc.p, it.LV.Heap+"#v0")
+			sum := st.H(fc.p, it.LV.Heap+"#sum")
+			st.assume(Implies(And(Not(ok), Eq(Select(st.H(fc.p, d), it.T), d0)), Eq(sum, MapSum(d0, v0))))
+			st.setH(it.LV.Heap+"#sum", Ite(ok, Add(sum, Ite(Select(d0, k), Select(v0, k), IntLit(0))), sum))
 		}
 	}
 	fr.regs[x] = Val{Tup: []Val{{T: ok}, {T: k}, {T: val}}}
